@@ -15,8 +15,12 @@
 (*        drops the cached sha)                                            *)
 (*   sha() / id                  = ReadId (uses the cache unless it is     *)
 (*        empty or the object is dirty)                                    *)
-(*   sha(object_format)/get_id   = ReadId256 (never cached)                *)
-(*   set_raw_string/_chunks      = SetRaw(v, withSha) (parses: fields := v)*)
+(*   sha(F)/get_id(F), F given   = ReadIdF(F), F = 1 (SHA-1), 2 (SHA-256): *)
+(*        an explicit request is never answered from the cache, whatever   *)
+(*        format the cached name has                                       *)
+(*   set_raw_string/_chunks      = SetRaw(v, w) (parses: fields := v); w = 0*)
+(*        no name given, w = 1 / 2 the caller gives the trusted SHA-1 /    *)
+(*        SHA-256 name (FixedSha), as a sha1 / sha256 object store does    *)
 (*   copy(), check(), from_file(as_legacy_object()) = Copy, Check, Reload  *)
 (*   Blob.data = SetRaw(v, FALSE); Blob.chunked = SetChunked(v): a Blob    *)
 (*        has no fields besides its text cache                             *)
@@ -27,114 +31,130 @@ CONSTANTS NF,                \* number of fields (valuations are tuples of lengt
           Vals,              \* values of a field
           IsBlob,            \* TRUE: Blob (fields = text cache, setters data/chunked)
           SetterMarksDirty,  \* FALSE: defect model -- the setter of field 1 forgets _needs_serialization
-          ChunkedResetsSha   \* FALSE: defect model -- Blob.chunked keeps the cached sha (objects.py at 671b511)
+          ChunkedResetsSha,  \* FALSE: defect model -- Blob.chunked keeps the cached sha (objects.py at 671b511)
+          ExplicitSha1Recomputes  \* FALSE: defect model -- sha(SHA1)/get_id(SHA1) is answered from the cache like .id
 
 Valuations == [1..NF -> Vals]
 V0 == [i \in 1..NF |-> CHOOSE x \in Vals : \A y \in Vals : x <= y]
 NoText == [some |-> FALSE, v |-> V0]
 Text(v) == [some |-> TRUE, v |-> v]
-NoSha  == [k |-> "none", v |-> V0]
-Computed(v) == [k |-> "computed", v |-> v]
-Fixed(v)    == [k |-> "fixed", v |-> v]
+\* a cached name is the hash of a valuation IN A FORMAT: 1 = SHA-1, 2 = SHA-256 (0 = no name)
+Formats == {1, 2}
+NoSha  == [k |-> "none", v |-> V0, fmt |-> 0]
+Computed(v) == [k |-> "computed", v |-> v, fmt |-> 1]       \* sha() caches a SHA-1 hashlib object
+Fixed(v, F) == [k |-> "fixed", v |-> v, fmt |-> F]
 
 VARIABLES fields,   \* current field values
           dirty,    \* _needs_serialization
           text,     \* _chunked_text: NoText or the valuation it is the serialisation of
-          sha,      \* _sha: NoSha, Computed(v) (a hashlib object), Fixed(v) (FixedSha given by the caller)
-          last      \* [op, f, x, ret]: the call just made and the valuation its result stands for
+          sha,      \* _sha: NoSha, Computed(v) (a hashlib object), Fixed(v, F) (FixedSha given by the caller)
+          last      \* [op, f, x, ret, rfmt]: the call just made, the valuation its result stands for and,
+                    \* for a name, the format it is the hash in
 vars == <<fields, dirty, text, sha, last>>
 
-Step(op, f, x, ret) == last' = [op |-> op, f |-> f, x |-> x, ret |-> ret]
+Step(op, f, x, ret, rfmt) == last' = [op |-> op, f |-> f, x |-> x, ret |-> ret, rfmt |-> rfmt]
 
 \* what as_raw_chunks() leaves behind
 TextAfter == IF dirty THEN Text(fields) ELSE text
 ShaAfterRaw == IF dirty THEN NoSha ELSE sha
 
 Init ==
-    /\ \E v \in Valuations, origin \in {"new", "raw", "rawsha"} :
+    /\ \E v \in Valuations, origin \in {"new", "raw", "rawsha"}, F \in Formats :
          /\ fields = v
+         /\ (origin # "rawsha" => F = 1)
          /\ IF origin = "new" /\ ~IsBlob
             THEN dirty = TRUE /\ text = NoText /\ sha = NoSha           \* constructor + setters
             ELSE /\ dirty = FALSE /\ text = Text(v)                     \* from_string / from_raw_string / from_file
-                 /\ sha = IF origin = "rawsha" THEN Fixed(v) ELSE NoSha
-         /\ last = [op |-> origin, f |-> 0, x |-> 0, ret |-> v]
+                 /\ sha = IF origin = "rawsha" THEN Fixed(v, F) ELSE NoSha   \* loaded by a sha1 / sha256 store
+         /\ last = [op |-> origin, f |-> IF origin = "rawsha" THEN F ELSE 0, x |-> 0, ret |-> v, rfmt |-> 0]
 
 Set(f, x) ==
     /\ ~IsBlob
     /\ fields' = [fields EXCEPT ![f] = x]
     /\ dirty' = IF SetterMarksDirty \/ f # 1 THEN TRUE ELSE dirty
     /\ UNCHANGED <<text, sha>>
-    /\ Step("set", f, x, fields')
+    /\ Step("set", f, x, fields', 0)
 
 AsRaw ==
     /\ text' = TextAfter /\ sha' = ShaAfterRaw /\ dirty' = FALSE
     /\ UNCHANGED fields
-    /\ Step("raw", 0, 0, TextAfter.v)
+    /\ Step("raw", 0, 0, TextAfter.v, 0)
 
+\* .id / sha(): the cache, if there is one and the object is clean -- in the format it was given in
+UseCache == sha.k # "none" /\ ~dirty
 ReadId ==
-    /\ IF sha.k = "none" \/ dirty
-       THEN text' = TextAfter /\ dirty' = FALSE /\ sha' = Computed(TextAfter.v)
-       ELSE UNCHANGED <<text, dirty, sha>>
+    /\ IF UseCache THEN UNCHANGED <<text, dirty, sha>>
+       ELSE text' = TextAfter /\ dirty' = FALSE /\ sha' = Computed(TextAfter.v)
     /\ UNCHANGED fields
-    /\ Step("id", 0, 0, sha'.v)
+    /\ Step("id", 0, 0, sha'.v, sha'.fmt)
 
-ReadId256 ==
-    /\ text' = TextAfter /\ sha' = ShaAfterRaw /\ dirty' = FALSE
+\* sha(F) / get_id(F) with the format given: always recomputed, in the requested format
+\* (defect model: an explicit SHA-1 request takes the path of .id)
+ReadIdF(F) ==
+    LET cached == F = 1 /\ ~ExplicitSha1Recomputes IN
+    /\ IF cached /\ UseCache THEN UNCHANGED <<text, dirty, sha>>
+       ELSE /\ text' = TextAfter /\ dirty' = FALSE
+            /\ sha' = IF cached THEN Computed(TextAfter.v) ELSE ShaAfterRaw
     /\ UNCHANGED fields
-    /\ Step("id256", 0, 0, TextAfter.v)
+    /\ Step("idF", F, 0, IF cached THEN sha'.v ELSE TextAfter.v, IF cached THEN sha'.fmt ELSE F)
 
-SetRaw(v, withSha) ==
+SetRaw(v, w) ==
     /\ fields' = v /\ text' = Text(v) /\ dirty' = FALSE
-    /\ sha' = IF withSha THEN Fixed(v) ELSE NoSha
-    /\ Step(IF withSha THEN "setrawsha" ELSE "setraw", 0, 0, v)
+    /\ sha' = IF w = 0 THEN NoSha ELSE Fixed(v, w)
+    /\ Step("setraw", w, 0, v, 0)
 
 SetChunked(v) ==
     /\ IsBlob
     /\ fields' = v /\ text' = Text(v)
     /\ sha' = IF ChunkedResetsSha THEN NoSha ELSE sha
     /\ UNCHANGED dirty
-    /\ Step("chunked", 0, 0, v)
+    /\ Step("chunked", 0, 0, v, 0)
 
 \* copy(): from_raw_string(type, as_raw_string(), self.id) -- result stands for the copy's content
 Copy ==
     /\ text' = TextAfter /\ dirty' = FALSE
     /\ sha' = IF ShaAfterRaw.k = "none" THEN Computed(TextAfter.v) ELSE ShaAfterRaw
     /\ UNCHANGED fields
-    /\ Step("copy", 0, 0, TextAfter.v)
+    /\ Step("copy", 0, 0, TextAfter.v, 0)
 
 \* check(): old = id; _deserialize(as_raw_chunks()); _sha = None; new = id
 Check ==
     /\ text' = TextAfter /\ dirty' = FALSE
     /\ fields' = TextAfter.v
     /\ sha' = Computed(TextAfter.v)
-    /\ Step("check", 0, 0, TextAfter.v)
+    /\ Step("check", 0, 0, TextAfter.v, 0)
 
-\* the object is written in loose-object form and read back (from_file, with or without a sha)
-Reload(withSha) ==
+\* the object is written in loose-object form and read back (from_file; w as in SetRaw: the name a
+\* sha1 / sha256 object store found it by).  DiskObjectStore.add_object + __getitem__ is this step.
+Reload(w) ==
     /\ text' = TextAfter /\ dirty' = FALSE
     /\ fields' = TextAfter.v
-    /\ sha' = IF withSha THEN Fixed(TextAfter.v) ELSE NoSha
-    /\ Step(IF withSha THEN "reloadsha" ELSE "reload", 0, 0, TextAfter.v)
+    /\ sha' = IF w = 0 THEN NoSha ELSE Fixed(TextAfter.v, w)
+    /\ Step("reload", w, 0, TextAfter.v, 0)
 
 Next ==
     \/ \E f \in 1..NF, x \in Vals : Set(f, x)
-    \/ AsRaw \/ ReadId \/ ReadId256 \/ Copy \/ Check
-    \/ \E v \in Valuations, w \in BOOLEAN : SetRaw(v, w)
+    \/ AsRaw \/ ReadId \/ Copy \/ Check
+    \/ \E F \in Formats : ReadIdF(F)
+    \/ \E v \in Valuations, w \in {0} \cup Formats : SetRaw(v, w)
     \/ \E v \in Valuations : SetChunked(v)
-    \/ \E w \in BOOLEAN : Reload(w)
+    \/ \E w \in {0} \cup Formats : Reload(w)
 
 Spec == Init /\ [][Next]_vars
 
 \* ------------------------------------------------------------------ properties
 TypeOK == /\ fields \in Valuations /\ dirty \in BOOLEAN
           /\ text.v \in Valuations /\ sha.v \in Valuations /\ sha.k \in {"none", "computed", "fixed"}
+          /\ sha.fmt \in {0} \cup Formats /\ (sha.k = "none" <=> sha.fmt = 0) /\ (sha.k = "computed" => sha.fmt = 1)
 
-\* every way of reading the name returns the hash of the serialisation of the CURRENT fields
-IdIsHash == last.op \in {"id", "id256"} => last.ret = fields
+\* every way of reading the name returns the hash of the serialisation of the CURRENT fields; an
+\* explicit request sha(F)/get_id(F) returns it IN THE REQUESTED FORMAT, whatever is cached
+IdIsHash == /\ (last.op = "id" => last.ret = fields)
+            /\ (last.op = "idF" => last.ret = fields /\ last.rfmt = last.f)
 
 \* every way of reading the bytes returns the serialisation of the current fields; a copy, a
 \* checked and a reloaded object carry the current fields
-SerCurrent == last.op \in {"raw", "copy", "check", "reload", "reloadsha"} => last.ret = fields
+SerCurrent == last.op \in {"raw", "copy", "check", "reload"} => last.ret = fields
 
 \* what makes the two above inductive: a clean object's caches describe its fields
 CacheCoherent == /\ (~dirty => text.some /\ text.v = fields)
